@@ -247,6 +247,60 @@ def run(tier):
     # ---- R4 wake-up: a suspended context whose awaited promise settled must become ready whatever route settled it
     import c08
     c08.wake_up_rule(fx, ck, "R4.wake-up")
+    # R2b: a generator that yields is a suspended VM too.  Its state goes through `SavedVmState` (decided by R1/R2 for await) and is
+    # then copied field by field into the generator object; whatever is not copied is lost at every `yield`.
+    ck.rule("R2b.generator-capture", "every field of SavedVmState that a run can make non-trivial is moved into the generator state at a yield and comes back "
+                                     "from it at the resume (or is exempt with a reason)", floor=6)
+    GEN_EXEMPT = {
+        "guard": "re-created for the rebuilt VM (the generator object keeps the values alive through its tracer)",
+        "chunk": "constant per generator; kept in the generator state since creation",
+        "arguments": "constant per generator; kept in the generator state since creation",
+        "this_value": "constant per generator; kept in the generator state since creation",
+        "new_target": "generators are not constructors",
+        "trampoline_stack": "`yield` is only allowed in the generator's own frame: no trampoline frames are active at a yield",
+    }
+    svs = [a for a in fx.adts if a.endswith("SavedVmState")]
+    gens = [f for f in fx.fns.values() if not f.closure and f.path.startswith("interpreter::") and
+            any(s_[0] == "a" and s_[2][0] == "agg" and s_[2][1].get("p", "").endswith("SavedVmState") for bl in f.blocks for s_ in bl["s"]) and
+            not f.path.endswith(("save_state", "from_saved_state"))]
+    if ck.anchor(bool(svs) and bool(gens), "SavedVmState and the function that rebuilds one from a generator's state"):
+        fields = [fl["name"] for fl in fx.adts[svs[0]]["variants"][0]["fields"]]
+        for g in gens:
+            reads = set()
+            for bi, kind, pl, sp in M.all_places(g):
+                if kind in ("r", "b"):
+                    for a, v, n in F.place_fields(pl):
+                        if a.endswith("SavedVmState"):
+                            reads.add(n)
+            aggs_ = [(bi, s_) for bi, bl in enumerate(g.blocks) for s_ in bl["s"]
+                     if s_[0] == "a" and s_[2][0] == "agg" and s_[2][1].get("p", "").endswith("SavedVmState")]
+            for fld in fields:
+                if fld in GEN_EXEMPT:
+                    ck.instance("R2b.generator-capture", "%s.%s (exempt: %s)" % (g.path.split("::")[-1], fld, GEN_EXEMPT[fld]), F.short_span(g.span), nontrivial=False)
+                    continue
+                captured = fld in reads
+                restored = True
+                for bi, s_ in aggs_:
+                    fs = s_[2][1].get("fields") or []
+                    if fld in fs:
+                        op = s_[2][2][fs.index(fld)]
+                        if op[0] == "k":
+                            restored = False
+                        else:
+                            d = M.trace_back(g, op[1][0])
+                            if d and d[1] == "T" and (d[2][1].get("d") or "").endswith(("Vec::<T>::new", "Default>::default", "Vec::<T, A>::new")):
+                                restored = False
+                            if d and d[1] != "T" and d[2][0] == "agg" and d[2][1].get("v") == "None":
+                                restored = False
+                ok = captured and restored
+                ck.instance("R2b.generator-capture", "%s: SavedVmState.%s %s / %s" % (g.path.split("::")[-1], fld, "captured at yield" if captured else "NOT captured",
+                                                                                       "restored at resume" if restored else "reset at resume"), F.short_span(g.span), ok=ok)
+                if not ok:
+                    ck.finding("R2b.generator-capture", "R2b.generator-capture/%s/%s" % (g.path, fld), F.short_span(g.span),
+                               "`%s` %s `SavedVmState.%s`: a generator loses it at every yield (saved_env_stack: the block scopes open at the yield are "
+                               "never left - `{ let x = 'inner'; yield } ... x` reads 'inner'; pending_completion: `try { return 1 } finally { yield }` "
+                               "completes with undefined)" % (g.path, "does not move the yielded state's" if not captured else "rebuilds the VM with an empty", fld))
+
     # R6 slot index domain (zero-expected, fixture controls)
     import slotindex
     nsl = slotindex.rule(fx, ck)
